@@ -111,6 +111,10 @@ pub enum Fault {
     Interrupted { at: u64, n: u64 },
     /// `n` operations starting at `at` fail with ErrorKind::TimedOut, then the stream works again
     Transient { at: u64, n: u64 },
+    /// the async operation with index `at` answers `Pending` once (wake-up deferred) and raises
+    /// the `stalled` flag, which is where a cancelling executor drops the future; sync faces
+    /// ignore it
+    Stall { at: u64 },
 }
 
 #[derive(Clone, Copy, Debug, PartialEq, Eq)]
@@ -174,6 +178,7 @@ struct Inner {
     wr_script_ix: usize,
     closed: bool,
     budget_exceeded: bool,
+    stalled: bool,
     epoch_seen: u64,
     ops_in_call: u64,
     budget: u64,
@@ -208,6 +213,7 @@ impl SimDisk {
             wr_script_ix: 0,
             closed: false,
             budget_exceeded: false,
+            stalled: false,
             epoch_seen: 0,
             ops_in_call: 0,
             budget: OP_BUDGET,
@@ -236,7 +242,13 @@ impl SimDisk {
         self
     }
     pub fn set_fault(&self, f: Fault) {
-        self.lock().fault = f;
+        let mut g = self.lock();
+        g.fault = f;
+        g.stalled = false;
+    }
+    /// True once an armed `Fault::Stall` has answered its `Pending`.
+    pub fn stalled(&self) -> bool {
+        self.lock().stalled
     }
     pub fn recording(self, data: bool) -> Self {
         {
@@ -354,7 +366,7 @@ impl Inner {
             return Err(io::Error::new(io::ErrorKind::Other, "simdisk: operation budget exceeded"));
         }
         match self.fault {
-            Fault::None => Ok(()),
+            Fault::None | Fault::Stall { .. } => Ok(()),
             Fault::FailStop { at, kind: fk } => {
                 if idx >= at {
                     self.stats.faults_fired += 1;
@@ -523,6 +535,17 @@ impl Inner {
 
     /// Returns true when the current async operation must answer `Pending` now.
     fn maybe_pend(&mut self, cx: &mut Context<'_>, ctl: bool) -> bool {
+        if let Fault::Stall { at } = self.fault {
+            if !self.stalled && self.stats.ops >= at {
+                self.stalled = true;
+                self.stats.pendings += 1;
+                self.stats.deferred_wakes += 1;
+                self.stats.faults_fired += 1;
+                self.mixd(0xfd, self.stats.pendings);
+                exec::defer_wake(cx.waker().clone());
+                return true;
+            }
+        }
         let p = self.policy.pend;
         if p.rate == 0 || (ctl && !p.ctl) {
             return false;
